@@ -392,6 +392,10 @@ def _open_case(n, rpc, H, L, pixels):
     orig_dfs = _DFS.DirFileSystem
     _DFS.DirFileSystem = DirFS
     _patch_io(n, H, L)
+    # scaling: the built-in default request size (1024 lines) is shrunk to 1 so that a call which loses its records_per_chunk on the
+    # way down becomes visible at the small line counts enumerated here (the default is never used when the option is threaded)
+    orig_defaults = IO.read_metadata.__defaults__
+    IO.read_metadata.__defaults__ = (1,)
     IO.file_descriptor_record = FDStubFull(n, L, n, pixels, TYPE_CODE)
     A.parse_data = lambda part, type_code: (part, type_code) if isinstance(part, Span) else _A_ORIG[0](part, type_code)
     A.np = _NP(lambda parts, axis=0: Out(stub_stack(parts)))
@@ -406,6 +410,9 @@ def _open_case(n, rpc, H, L, pixels):
         # the metadata pass used exactly one open of this image and nothing else
         opens = [e for e in made[0].log if e[0] == "open"]
         ok = ok & (len(opens) == 1) & (opens[0][1] == IMGNAME) & (len(inner.log) == 0)
+        # ... and at most ceil(n / rpc) requests after the descriptor, with THIS call's rpc
+        reads = [e for e in made[0].log if e[0] == "read"]
+        ok = ok & (len(reads) - 1 <= (n + rpc - 1) // rpc) & (len(reads) >= 1)
         if n > 0:
             made[0].log.clear()
             out = arr[(slice(None), slice(None))]
@@ -417,6 +424,7 @@ def _open_case(n, rpc, H, L, pixels):
         return ok
     finally:
         _unpatch_io()
+        IO.read_metadata.__defaults__ = orig_defaults
         A.parse_data, A.np = _A_ORIG
         _DFS.DirFileSystem = orig_dfs
 
